@@ -31,6 +31,7 @@ pub const SUBS: &[SubDef] = &[
     SubDef { prop: "C10", name: "records", oracle: records },
     SubDef { prop: "C10", name: "hs_header", oracle: hs_header },
     SubDef { prop: "C10", name: "datagram", oracle: datagram },
+    SubDef { prop: "C10", name: "frame_raw", oracle: frame_raw },
 ];
 
 const CAP: usize = (1 << 14) + 256;
@@ -51,6 +52,7 @@ fn run(ctx: &Ctx) {
     ctx.run_tape("records", records, ctx.pick(10_000, 500_000), 700);
     ctx.run_tape("hs_header", hs_header, ctx.pick(10_000, 500_000), 200);
     ctx.run_tape("datagram", datagram, ctx.pick(4_000, 200_000), 1500);
+    ctx.run_tape("frame_raw", frame_raw, ctx.pick(10_000, 400_000), 80);
 }
 
 thread_local! {
@@ -192,6 +194,26 @@ fn frame_exhaustive(t: &mut Tape, obs: &mut Obs) -> R {
         }
         r
     })
+}
+
+/// the tape itself is the datagram: framing contract on arbitrary bytes and every prefix
+fn frame_raw(t: &mut Tape, obs: &mut Obs) -> R {
+    let mut buf = Vec::new();
+    while !t.exhausted() {
+        buf.push(t.u8());
+    }
+    if let Some(b0) = buf.first_mut() {
+        if *b0 & 0x80 == 0 {
+            *b0 = 0x14 + (*b0 % 4);
+        }
+    }
+    for c in 0..=buf.len() {
+        check_cut(&buf[..c], obs)?;
+    }
+    if buf.len() > 13 {
+        obs.sample(json!({"case": "raw", "hex": hex_short(&buf)}));
+    }
+    Ok(())
 }
 
 fn records(t: &mut Tape, obs: &mut Obs) -> R {
